@@ -235,7 +235,14 @@ def choose_cfgs(g, k, tier):
         base.append(("ctl2", 0, 0))
     elif k % 3 == 0:
         base.append(("ctl3", 0, 1))
-    return [(f, c, a, m, "lf_crlf") for (c, a, m) in base for f in ("act9", "act10")]
+    out = [(f, c, a, m, "lf_crlf") for (c, a, m) in base for f in ("act9", "act10")]
+    if ("c18:bytes" in g.tags or "c18:mixed" in g.tags) and k % 2 == 0:
+        # "wherever in the input that is": the same guarded run on an input constructed with initial counters 7:3:5 (the
+        # byte counter is then not the offset from begin()); judged by the correspondence, the residue checks and the
+        # absolute bound check only (the twin comparisons do their arithmetic on offsets)
+        out.append(("act9", "ctl2", 1, 1, "lf_crlf", "init"))
+        out.append(("act9", "ctl3", 1, 0, "lf_crlf", "lazy+init"))
+    return out
 
 
 # --------------------------------------------------------------------------- oracle
@@ -547,7 +554,8 @@ def oracle(K, rec, counters):
         counters["depth_traces_counter_machine"] += 1
         if m:
             out.append(m)
-    if "c18:depth" in tags:
+    init = "@" in rec["cfg"]
+    if "c18:depth" in tags and not init:
         tw = idx.get((rec["gid"], twin_cfg(rec["cfg"]), rec["input"]))
         if tw is None:
             counters["depth_runs_without_twin"] += 1
@@ -563,17 +571,17 @@ def oracle(K, rec, counters):
         counters["bytes_traces_bound_checked"] += 1
         if m:
             out.append(m)
-    if "c18:bytes" in tags:
+    if "c18:bytes" in tags and not init:
         m = bytes_vs_twin(K, rec, G["limit_bytes"], counters)
         if m:
             out.append(m)
-    if "c18:check" in tags:
+    if "c18:check" in tags and not init:
         m = check_vs_twin(K, rec, G["check_bytes"], counters, notry)
         if m:
             out.append(m)
     if "c18:tail" in tags and rec["res"][:1] in "TF":
         counters["tail_consumption_checked"] += 1
-        n = len(inbytes(rec))
+        n = len(inbytes(rec)) + (7 if init else 0)
         if rec["res"] == "F" or cur.split(",")[0] != str(n):
             out.append("the rules after the guarded one did not see the whole input (end not restored?): result %s cursor %s of %d bytes" % (rec["res"], cur, n))
     return out
